@@ -31,7 +31,8 @@ NoneI == 99             \* Python None inside index / slice triples (integer sen
 NoneQ == <<0, 0>>       \* Python None where a rational is expected (bounds)
 
 (* ---------------------------------------------------------------- literals *)
-\* lk: int | float | bool | npf64 | npi64 | npf32 | list | arr ; qs: values row-major ; sh: shape
+\* lk: int | float | bool | npf64 | npi64 | npf32 | npu8 | npf16 | list | arr ... ; qs: values row-major ; sh: shape
+\* (a literal denotes its exact value whatever its NumPy dtype: uint8(3) is the number 3, never arithmetic modulo 256)
 Lit(lk, qs, sh) == [lk |-> lk, qs |-> qs, sh |-> sh]
 NoLit           == Lit("none", <<>>, <<>>)
 LitS(lk, q)     == Lit(lk, <<q>>, <<>>)
